@@ -572,3 +572,8 @@ func genProtoAdv(c *ctx) *gen {
 		})
 	}}
 }
+
+// msgByGo finds the schema entry of a generated Go message.
+func (c *ctx) msgByGo(m proto.Message) *c14schema.Message {
+	return c.msgOf(m.ProtoReflect().Descriptor())
+}
